@@ -43,7 +43,7 @@ ASSUMPTIONS = [
     'copy.deepcopy is a faithful clone of a table (spot-checked by '
     're-executing sampled sequences from scratch)',
 ]
-REQUIRED = ['steps', 'refused_then_checked', 'oracle_runs', 'invariant_evaluations',
+REQUIRED = ['steps', 'earlier_tables_rechecked', 'refused_then_checked', 'oracle_runs', 'invariant_evaluations',
             'absent_id_probes', 'stale_id_probes', 'layout_csc_seen',
             'layout_unsorted_seen', 'empty_table_states', 'io_steps',
             'replayed_from_scratch']
@@ -636,6 +636,39 @@ def plan(tier):
 REFUSALS = None
 
 
+def light_oracle(ctx, t, desc, what):
+    """Cheap coherence check for tables that are still alive from earlier
+    in the history (siblings / ancestors of the current table)."""
+    try:
+        D = t.matrix_data
+        obs = [str(i) for i in t.ids(axis='observation')]
+        samp = [str(i) for i in t.ids()]
+        if tuple(D.shape) != (len(obs), len(samp)):
+            raise Violation('C05/earlier-table-incoherent/shape', '%s: shape '
+                            '%r for %d/%d ids; case=%r' % (what, D.shape,
+                                                           len(obs),
+                                                           len(samp), desc))
+        for ax, ids in (('observation', obs), ('sample', samp)):
+            if len(set(ids)) != len(ids):
+                raise Violation('C05/earlier-table-incoherent/duplicate-ids',
+                                '%s: %s ids %r; case=%r' % (what, ax, ids,
+                                                            desc))
+            for k, i in enumerate(ids):
+                if not t.exists(i, axis=ax) or t.index(i, ax) != k:
+                    raise Violation('C05/earlier-table-incoherent/lookup',
+                                    '%s: %s id %r at position %d: exists=%r; '
+                                    'case=%r' % (what, ax, i, k,
+                                                 t.exists(i, axis=ax), desc))
+            md = t.metadata(axis=ax)
+            if md is not None and len(md) != len(ids):
+                raise Violation('C05/earlier-table-incoherent/metadata',
+                                '%s; case=%r' % (what, desc))
+    except CoherenceBroken as e:
+        raise Violation('C05/earlier-table-incoherent/class-invariant',
+                        '%s: %s; case=%r' % (what, e, desc))
+    ctx.count('earlier_tables_rechecked')
+
+
 def apply_step(ctx, name, t, m, r, ever, hist):
     """Returns (t', m') or raises Refused. Runs the oracle."""
     fam, f = OPS[name]
@@ -770,13 +803,29 @@ def run_case(ctx, index):
     hist = {'start': spec.describe(), 'ops': []}
     oracle(ctx, t, r, ever, hist)
     L = r.randint(4, 25)
+    alive = []          # (snapshot at the time, table) of earlier tables
     for _ in range(L):
         name = r.choice(OP_NAMES)
+        prev = t
+        prev_snap = snap.snap(t)
         try:
             t, m = apply_step(ctx, name, t, m, r, ever, hist)
         except Refused:
             continue
         hist['ops'].append(name)
+        if t is not prev:
+            alive.append((prev_snap, prev, len(hist['ops'])))
+            alive = alive[-3:]
+        # tables produced earlier are still tables: they must stay coherent
+        # and keep their content whatever is done to their descendants
+        for sn, old, at in alive:
+            light_oracle(ctx, old, dict(hist), 'table before step %d' % at)
+            d = snap.diff(snap.snap(old), sn)
+            if d:
+                raise Violation('C05/earlier-table-changed', 'the table '
+                                'before step %d changed after a later step: '
+                                '%s; case=%r' % (at, '; '.join(d),
+                                                 dict(hist)))
     fams = [OPS[o][0] for o in hist['ops']]
     ctx.case(dict(hist), len(hist['ops']) >= 2 and any(f in ID_CHANGING
                                                        for f in fams))
